@@ -118,7 +118,14 @@ func c11ValuesHandedOver(res *Result) {
 		c := Case{"stream": "c11-values-handed-over", "form": f.name, "main": f.main, "part": part}
 		for i := 0; i < 2; i++ {
 			res.Evaluations++
-			got, err := e.Render("main", map[string]interface{}{"n": 3, "x": "X", "o": map[string]interface{}{"k": "K"}, "ns": []interface{}{1, 2, 3}})
+			var got string
+			var err error
+			if !c08WithTimeout(20*time.Second, func() {
+				got, err = e.Render("main", map[string]interface{}{"n": 3, "x": "X", "o": map[string]interface{}{"k": "K"}, "ns": []interface{}{1, 2, 3}})
+			}) {
+				res.add(Finding{Kind: "oracle", Where: "c11-values-handed-over/" + f.name, Case: c, Expected: want, Observed: "no answer within 20 s"})
+				return
+			}
 			if err != nil {
 				got = "error: " + err.Error()
 			}
